@@ -71,3 +71,53 @@ Proof. exact hl_hess_nonneg. Qed.
 
 Example C14_exponents_example : hess_exponents (PS 0) (PS (Rnat 2)) [(0, 2)] [1].
 Proof. intros i Hi. left. exists 0%nat. reflexivity. Qed.
+
+(* ==== every composition of the preference-function combinators, and several cumulative ranges ============================
+   Proofs/FnProofs.v (induction on the AST of Model/Fn.v), Proofs/RangesProofs.v (contiguous slot ranges). *)
+From DK.Proofs Require Import RangesProofs FnProofs.
+
+(* hsmooth_fn: ABCCost exponents are natural >= 2, or 1 where q does not vanish (or the slot has zero width); the peak of a
+   DemandFunction argument is unique. The matrix is diagonal for the slot-wise combinators, f''*11^T for a kernel of the total,
+   block diagonal for RangesFunction, the sum for SumFunction, unchanged by reflection. *)
+Theorem C14_function_ast_every_composition : forall (f : fn R) (x : list R),
+  wf_fn f (length x) -> hsmooth_fn f x -> hess_at (fderiv f) (fhess f x) x.
+Proof. exact fn_hess. Qed.
+
+Theorem C14_adevice : forall n b cb f ucs (s p : list R), length s = n -> length p = n -> wf_fn f n -> hsmooth_fn f s ->
+  hess_at (fun s' => leaf_deriv (Build_leafdev n b cb (KA f ucs)) s' p) (leaf_hess (Build_leafdev n b cb (KA f ucs)) s) s.
+Proof. exact hess_adevice. Qed.
+
+Theorem C14_reported_gradient_has_one_entry_per_slot : forall (f : fn R) (x : list R),
+  wf_fn f (length x) -> length (fderiv f x) = length x.
+Proof. exact fderiv_length. Qed.
+
+(* RangesFunction: entry (j,k) is the block's entry when j and k lie in the same range, 0 across ranges *)
+Theorem C14_ranges_matrix_is_block_diagonal : forall rs (x : list R),
+  fhess (FRanges rs) x = matrix_of (block_sum rst ren (fun r => fhess (rfn r) (slice (rst r) (ren r) x)) rs) (length x).
+Proof. exact fhess_ranges. Qed.
+Theorem C14_block_sum_vanishes_before_the_ranges : forall (T : Type) (st en : T -> nat) (Hr : T -> list (list R)) rs a n j k,
+  chain st en a rs n -> (j < a)%nat -> block_sum st en Hr rs j k = 0.
+Proof. exact @block_sum_before. Qed.
+Theorem C14_ranges_generic : forall (T : Type) (st en : T -> nat) (x : list R) (Gf : T -> list R -> list R) (Hr : T -> list (list R)) rs a,
+  chain st en a rs (length x) ->
+  (forall r z, In r rs -> length z = (en r - st r)%nat -> length (Gf r z) = (en r - st r)%nat) ->
+  (forall r, In r rs -> hess_at (Gf r) (Hr r) (slice (st r) (en r) x)) ->
+  forall j k, (a <= j < length x)%nat -> (k < length x)%nat ->
+    is_derive (fun t => nth (j - a) (ranged_field st en Gf rs (upd x k t)) 0) (nth k x 0) (block_sum st en Hr rs j k).
+Proof. exact @ranged_jac. Qed.
+
+Theorem C14_peak_demand : forall (c x : list R), unique_max x ->
+  hess_at (fun y => upd (zeros (length y)) (argmax y) (horner (A:=R) (pderiv c) (vmax y)))
+          (diag (upd (zeros (length x)) (argmax x) (horner (A:=R) (pderiv (pderiv c)) (vmax x)))) x.
+Proof. exact hess_demand. Qed.
+
+(* CDevice2 with any number of contiguous cumulative ranges: f''(range total) inside a range, 0 across ranges *)
+Theorem C14_cdevice2_contiguous_ranges : forall n b cbs pl ph (s p : list R), length s = n -> length p = n -> cb_chain cbs n ->
+  hess_at (fun s' => leaf_deriv (Build_leafdev n b cbs (KC2 pl ph)) s' p) (leaf_hess (Build_leafdev n b cbs (KC2 pl ph)) s) s.
+Proof. exact hess_cdevice2_multi. Qed.
+Theorem C14_cdevice2_block_structure : forall pl ph (cbs : list (cbound R)) (s : list R), length cbs <> 1%nat -> cb_chain cbs (length s) ->
+  cdev2_hess pl ph cbs s
+  = matrix_of (block_sum (@cb_s R) (@cb_e R)
+                 (fun c => let z := slice (cb_s c) (cb_e c) s in mconst (length z) (length z) (hl_hess (vsum z) pl ph (cb_lo c) (cb_hi c))) cbs)
+              (length s).
+Proof. exact cdev2_hess_multi. Qed.
